@@ -11,6 +11,8 @@ def plan(tier, seed):
     jobs = [ch("C06", F, "h_to_pandas_plain", t, fun), ch("C06", F, "h_count_len", t, fun),
             ch("C06", F, "h_head", t, fun), ch("C06", F, "h_repeat_reads_filelike", t, fun),
             ch("C06", F, "h_iter_row_groups", t, ["api.ParquetFile.iter_row_groups"]),
+            ch("C06", F, "h_slice_count", t, ["api.ParquetFile.__getitem__", "api.ParquetFile.count",
+                                              "api.ParquetFile.info", "api.ParquetFile.__setstate__"]),
             dict(name="C06-lemma-range-index", kind="pyfunc", timeout=300,
                  payload=dict(func="vf.pyshim.lemmas:range_index",
                               kwargs=dict(max_step=6 if tier == "quick" else 40)))]
@@ -18,12 +20,12 @@ def plan(tier, seed):
         explanation="CrossHair (z3) over the real ParquetFile.to_pandas / head / count called on a shim handle whose "
                     "row groups carry symbolic num_rows in [0, 2^31): every row group must be placed at [sum of "
                     "previous, +num_rows), placements tile the allocation, head(n) reads a prefix holding min(n, "
-                    "total) rows, count() is the sum. The RangeIndex reconstruction arithmetic of pre_allocate is "
+                    "total) rows, count() is the sum - also on a handle obtained by picking / slicing row groups of a real ParquetFile "
+                    "object over real thrift metadata (h_slice_count). The RangeIndex reconstruction arithmetic of pre_allocate is "
                     "lifted from the function's AST into LIA and decided by z3 for all starts and sizes.",
         bounds="<=4 row groups with num_rows in [0, 2^31); head: <=3 groups, any n >= 0; range index: every integer "
                "start, every size >= 0, steps -6..6 (thorough -40..40) except 0",
-        outside="column subsetting and index selection (pandas glue), pickling (serialisation is C10), file-like "
-                "input, iter_row_groups' per-group frames",
+        outside="column subsetting and index selection (pandas glue), pickling (serialisation is C10)",
         stubs=["shim handle: pre_allocate records the size and returns recording views; read_row_group_file records "
                "(row group, slice, mask)", "api.filter_row_groups -> identity (pruning is C05)",
                "pandas.RangeIndex contract = Python range (in the lemma: closed-form label count)"],
